@@ -812,6 +812,17 @@ class Sim:
                 if exc is not None:
                     self.shape.append('R')
                     self.bump('runs_faulted')
+                    # after a run that raised, a gate's record may be the old one or the new one, but it must be ONE record:
+                    # the recorded outcome has non-zero recorded probability
+                    for x in self.desc:
+                        if x[0] == 'measure' and x[2].bitstr is not None and x[2].probability is not None:
+                            g = x[2]
+                            pr = np.asarray(g.probability)
+                            a = 0
+                            for b in g.bitstr:
+                                a = (a << 1) | int(b)
+                            if pr.ndim != 1 or a >= pr.shape[0] or not (pr[a] > 0):
+                                raise Violation('after_fault', 'MeasureGate', f'after an interrupted run the measure gate on {list(g.index)} holds bit string {list(g.bitstr)} together with probabilities {np.round(pr, 6).tolist()}: the recorded outcome has no recorded probability (a torn record)')
                     return
         else:
             try:
